@@ -112,8 +112,9 @@ from translate_expand import _paren  # noqa: E402
 
 # ------------------------------------------------------------------ types
 INT, OPTINT, BOOL, ITEM, OPTITEM, PT, STR, UNIT, NONE = "int", "optint", "bool", "item", "optitem", "pt", "str", "unit", "none"
+STRINT = "strint"      # str(n) of an int n, on its way into the save configuration: carried as the int
 COQ_TYPE = {INT: "Z", OPTINT: "option Z", BOOL: "bool", ITEM: "Item", OPTITEM: "option Item", PT: "Pt",
-            STR: "pstr", UNIT: "unit"}
+            STR: "pstr", UNIT: "unit", STRINT: "Z"}
 # compile-time handles
 PCFG, QUEUE, CFG, REPORT, THREAD, EXCV = "<pcfg>", "<queue>", "<save_config>", "<report>", "<thread>", "<exception>"
 
@@ -235,9 +236,21 @@ class _EndTry(ast.stmt):
         self.k, self.lineno = k, lineno
 
 
+class _EndInline(ast.stmt):
+    """marker statement: the end of the inlined body of a private helper; what follows runs in the caller's
+    environment again"""
+    _fields = ()
+
+    def __init__(self, env, name, lineno):
+        super().__init__()
+        self.env, self.name, self.lineno = env, name, lineno
+
+
 class FunctionTranslator:
-    def __init__(self, path, rel, fn, spec, cls, consts, done):
+    def __init__(self, path, rel, fn, spec, cls, consts, done, helpers=None):
         self.path, self.rel, self.fn, self.spec, self.cls = path, rel, fn, spec, cls
+        self.helpers = helpers or {}     # ("", name) / (class, name) -> FunctionDef of the other defs of the module
+        self.inlining = []               # helpers being inlined (no recursion)
         self.consts = consts      # self attribute -> str constant (from __init__)
         self.done = done          # py name -> spec of the methods translated before
         self.uid = 0
@@ -421,7 +434,7 @@ class FunctionTranslator:
             t, ty = self.expr(e.args[0], env, pre)
             if ty != INT:
                 self.fail(e, "str() of a value of type %s" % ty)
-            return t, "strint"
+            return t, STRINT
         if not isinstance(f, ast.Attribute):
             return None
         # threading.main_thread().is_alive()
@@ -572,6 +585,22 @@ class FunctionTranslator:
             if isinstance(n, ast.Attribute) and n.attr == "should_exit":
                 self.fail(n, "the quit flag is read inside a statement that is not modelled")
 
+    def is_ghost_value(self, e, env):
+        """an expression the translator has no type for and that acts on nothing (no call, no read of the quit flag):
+        its value can only matter to statements that are skipped"""
+        try:
+            self.ghost_safe(e, env)
+        except TranslateError:
+            return False
+        uid, used = self.uid, set(self.used_ops)
+        try:
+            self.expr(e, env.copy(), [])
+            return False
+        except TranslateError:
+            return True
+        finally:
+            self.uid, self.used_ops = uid, used
+
     def is_stderr_print(self, s):
         """print(..., file=sys.stderr) -> True; any other print -> refused; else False"""
         if not (isinstance(s, ast.Expr) and isinstance(s.value, ast.Call) and isinstance(s.value.func, ast.Name)
@@ -682,7 +711,9 @@ class FunctionTranslator:
             elif isinstance(n, (ast.AugAssign, ast.AnnAssign)):
                 if isinstance(n.target, ast.Name) and n.target.id not in out:
                     out.append(n.target.id)
-            elif isinstance(n, (ast.For, ast.AsyncFor, ast.NamedExpr, ast.Delete, ast.Global, ast.Nonlocal, ast.Import,
+            elif isinstance(n, ast.For):
+                pass          # unrolled (literal tuple only: checked where it is translated); its variable is dropped
+            elif isinstance(n, (ast.AsyncFor, ast.NamedExpr, ast.Delete, ast.Global, ast.Nonlocal, ast.Import,
                                 ast.ImportFrom, ast.FunctionDef, ast.AsyncFunctionDef, ast.ClassDef, ast.Lambda,
                                 ast.ListComp, ast.SetComp, ast.DictComp, ast.GeneratorExp, ast.Yield, ast.YieldFrom,
                                 ast.Await, ast.Raise, ast.Assert, ast.IfExp, ast.AsyncWith, ast.Starred)):
@@ -702,6 +733,11 @@ class FunctionTranslator:
         s, rest = stmts[0], list(stmts[1:])
         if isinstance(s, _EndTry):
             return self.line(ind, "(* %d: end of the try block *)" % s.lineno) + self.block(rest, env, s.k, ind)
+        if isinstance(s, _EndInline):
+            self.inlining.remove(s.name)
+            return self.line(ind, "(* end of the inlined body of %s *)" % s.name) + self.block(rest, s.env, k, ind)
+        if isinstance(s, ast.For):
+            return self.block(self.unrolled(s, env) + rest, env, k, ind)
         if isinstance(s, ast.Expr) and isinstance(s.value, ast.Constant) and type(s.value.value) is str:
             return self.block(rest, env, k, ind)          # docstring
         if isinstance(s, ast.Pass):
@@ -777,11 +813,12 @@ class FunctionTranslator:
         # ---- the keyboard thread object
         if isinstance(v, ast.Call) and ast.unparse(v.func) == "threading.Thread":
             kws = {kw.arg: kw.value for kw in v.keywords}
-            ok = (not v.args and set(kws) == {"target", "args"} and isinstance(kws["target"], ast.Name)
+            ok = (not v.args and set(kws) - {"daemon"} == {"target", "args"} and isinstance(kws["target"], ast.Name)
                   and kws["target"].id == "keypress" and isinstance(kws["args"], ast.Tuple)
-                  and [self.handle_of(a, env) for a in kws["args"].elts] == [REPORT, PCFG] and isinstance(t, ast.Name))
+                  and [self.handle_of(a, env) for a in kws["args"].elts] == [REPORT, PCFG] and isinstance(t, ast.Name)
+                  and ("daemon" not in kws or (isinstance(kws["daemon"], ast.Constant) and type(kws["daemon"].value) is bool)))
             if not ok:
-                self.fail(s, "the thread must be built as x = threading.Thread(target=keypress, args=(report, pcfg))")
+                self.fail(s, "the thread must be built as x = threading.Thread(target=keypress, args=(report, pcfg)[, daemon=<bool>])")
             self.check_name(s, t.id)
             if t.id in env.types or t.id in env.handles:
                 self.fail(s, "%r is rebound" % t.id)
@@ -806,8 +843,16 @@ class FunctionTranslator:
         if not isinstance(t, ast.Name):
             self.fail(s, "unsupported assignment target")
         x = t.id
+        if self.is_ghost_value(v, env):
+            # a value only the status bookkeeping can use (a float product, item['prob'], ...): the local is dropped;
+            # a later use of it outside a skipped statement is refused (unknown variable)
+            env.types.pop(x, None)
+            if x in env.handles:
+                self.fail(s, "the object %r is rebound" % x)
+            return self.line(ind, "(* %d: not modelled, skipped (a value only status statements use): %s *)" % (
+                s.lineno, _comment(ast.unparse(s).split("\n")[0]))) + self.block(rest, env, k, ind)
         text, ty = self.expr(v, env, pre)
-        if ty not in (INT, OPTINT, BOOL, ITEM, OPTITEM, STR, NONE, PT):
+        if ty not in (INT, OPTINT, BOOL, ITEM, OPTITEM, STR, NONE, PT, STRINT):
             self.fail(s, "unsupported value of type %s" % ty)
         self.bind(s, x, ty, env)
         out, closes = self.opens(pre, env, k, ind, s)
@@ -868,7 +913,7 @@ class FunctionTranslator:
                 done = True
             elif h == CFG and f.attr == "set" and self.is_omen_key(c.args) and len(c.args) == 3 and not c.keywords:
                 v, tv = self.expr(c.args[2], env, pre)
-                if tv != "strint":
+                if tv != STRINT:
                     self.fail(s, "omen_guess_number must be stored as str(<int>)")
                 self.use_op(s, "cfg_set_omen_number", [v], pre)
                 done = True
@@ -892,12 +937,67 @@ class FunctionTranslator:
                 pre.append(("bind", r, "_"))
                 done = True
         if not done:
+            h = self.helper_of(c)
+            if h is not None:
+                return self.inline(s, h, rest, env, k, ind)
+        if not done:
             # an operation whose value is dropped
             got = self.op_expr(c, env, pre)
             if got is None:
                 self.fail(s, "unsupported call statement")
         text, closes = self.opens(pre, env, k, ind, s)
         return self.wrap(closes, text + self.block(rest, env, k, ind))
+
+    # ---- private helpers (inlined on demand) and loops over a literal tuple (unrolled)
+    def helper_of(self, c):
+        """c is a call, without arguments, of a private helper of the module / the class -> (name, FunctionDef)"""
+        if c.args or c.keywords:
+            return None
+        f = c.func
+        if isinstance(f, ast.Name) and ("", f.id) in self.helpers:
+            return f.id, self.helpers[("", f.id)]
+        if self.cls and self.is_self_attr(f) and (self.cls, f.attr) in self.helpers and f.attr not in self.done:
+            return "self." + f.attr, self.helpers[(self.cls, f.attr)]
+        return None
+
+    def inline(self, s, h, rest, env, k, ind):
+        name, fn = h
+        a = fn.args
+        want = ["self"] if name.startswith("self.") else []
+        if fn.decorator_list or a.vararg or a.kwarg or a.kwonlyargs or a.posonlyargs or a.defaults \
+                or [x.arg for x in a.args] != want or isinstance(fn, ast.AsyncFunctionDef):
+            self.fail(s, "only private helpers without parameters are inlined")
+        if name in self.inlining:
+            self.fail(s, "recursive helper")
+        body = list(fn.body)
+        if body and isinstance(body[-1], ast.Return) and body[-1].value is None:
+            body = body[:-1]
+        for b in body:
+            for n in ast.walk(b):
+                if isinstance(n, (ast.Return, ast.Yield, ast.YieldFrom, ast.Global, ast.Nonlocal)):
+                    self.fail(s, "the helper %s returns a value / leaves early: not inlined" % name)
+        self.inlining.append(name)
+        henv = Env()                      # the helper sees none of the caller's locals
+        text = self.line(ind, "(* %d: %s  -- the body of the helper (lines %d-%d) inlined: *)" % (
+            s.lineno, _comment(ast.unparse(s)), fn.lineno, fn.end_lineno))
+        return text + self.block(body + [_EndInline(env, name, s.lineno)] + rest, henv, k, ind)
+
+    def unrolled(self, s, env):
+        """for x in (<constants>): BODY  ->  BODY repeated; x itself is dropped (it may only be used in statements
+        that are not modelled or in stderr prints)"""
+        if s.orelse or not isinstance(s.target, ast.Name) or not isinstance(s.iter, (ast.Tuple, ast.List)) \
+                or not all(isinstance(e, ast.Constant) for e in s.iter.elts):
+            self.fail(s, "a for loop is supported only over a literal tuple / list of constants (it is unrolled)")
+        for b in s.body:
+            for n in ast.walk(b):
+                if isinstance(n, (ast.Break, ast.Continue, ast.For, ast.While)):
+                    self.fail(n, "break / continue / nested loop inside an unrolled loop")
+        x = s.target.id
+        if x in env.types or x in env.handles:
+            self.fail(s, "the loop variable %r is already bound" % x)
+        if x in self.assigned(s.body):
+            self.fail(s, "the loop variable is assigned in the loop")
+        return list(s.body) * len(s.iter.elts)
 
     # ---- conditionals
     def must_assign(self, stmts):
@@ -1306,7 +1406,14 @@ def render(which, repo=None):
         if len(fns) != 1 or not isinstance(fns[0], ast.FunctionDef):
             raise TranslateError("%s: %s%s not found exactly once" % (path, (spec["cls"] + ".") if spec["cls"] else "", spec["py"]))
         done = done_by_cls.setdefault(spec["cls"], {})
-        ft = FunctionTranslator(path, kernel["source"], fns[0], spec, spec["cls"], consts, done)
+        translated = {(sp["cls"] or "", sp["py"]) for sp in kernel["specs"]}
+        helpers = {("", n.name): n for n in tree.body if isinstance(n, ast.FunctionDef) and ("", n.name) not in translated}
+        for c in tree.body:
+            if isinstance(c, ast.ClassDef):
+                for n in c.body:
+                    if isinstance(n, ast.FunctionDef) and (c.name, n.name) not in translated:
+                        helpers[(c.name, n.name)] = n
+        ft = FunctionTranslator(path, kernel["source"], fns[0], spec, spec["cls"], consts, done, helpers)
         parts.append(ft.translate())
         for a in sorted(ft.used_consts):
             d = "(* %s.__init__: self.%s = %r (the only assignment of this attribute in the class) *)\nDefinition py_self_%s : pstr := %s.\n" % (
